@@ -22,6 +22,8 @@ import os, re, shutil, subprocess, sys, tempfile, threading, time, queue
 from concurrent.futures import ThreadPoolExecutor
 
 ROOT = os.path.dirname(os.path.dirname(os.path.abspath(__file__)))
+# the pristine Rust sources: repo-src/ inside a development copy, otherwise $KESTREL_REPO, otherwise /repo (only read, copied to a scratch directory)
+PRISTINE = os.path.join(ROOT, 'repo-src') if os.path.isdir(os.path.join(ROOT, 'repo-src')) else os.environ.get('KESTREL_REPO', '/repo')
 REL = 'src/cli/src/keyring.rs'                       # the translated file(s)
 TRANSLATED = [REL]
 TRANSLATOR = os.path.join(ROOT, 'tools', 'rs2lean_keyring.py')
@@ -540,7 +542,7 @@ def run_case(case, tmp, workers):
     t0 = time.time()
     tree = os.path.join(tmp, 'repo-' + case.name)
     try:
-        shutil.copytree(os.path.join(ROOT, 'repo-src'), tree)
+        shutil.copytree(PRISTINE, tree)
         for p in case.patches:
             apply_patch(os.path.join(ROOT, 'seeded', p, 'patch.diff'), tree)
         if case.edits:
